@@ -401,6 +401,47 @@ func init() {
 			return rc
 		}})
 
+	// ---------------- C09: cross-namespace isolation
+	register(&Profile{Name: "xns", Prop: "C09", Weight: 1,
+		Oracles: OracleSet{Property: "C09", CrossNS: true},
+		Build: func(seed uint64, tier string) *RunConfig {
+			r := cfgRng(seed)
+			mn, mx := tierOps(tier, 4, 18)
+			ctl := sampleCtl(r)
+			ctl.AllowCrossNamespace = r.IntN(8) == 0
+			rc := &RunConfig{Property: "C09", Profile: "xns", Seed: seed, Ctl: ctl, MapOrder: r.IntN(2) == 0, Lagfree: r.IntN(2) == 0, MidSched: r.IntN(3) == 0}
+			w := map[string]int{"ing_create": 6, "ing_delete": 3, "ing_update": 8, "ing_ann": 14, "global_change": 12, "secret_rotate": 4, "secret_delete": 3, "secret_create": 4,
+				"svc_update": 2, "ep_scale": 2, "renotify": 2, "advance": 3}
+			initial := map[string]string{}
+			for _, k := range []string{"cross-namespace-secrets-crt", "cross-namespace-secrets-ca", "cross-namespace-secrets-passwd", "cross-namespace-services"} {
+				switch r.IntN(4) {
+				case 0:
+					initial[k] = "allow"
+				case 1:
+					initial[k] = "deny"
+				case 2:
+					initial[k] = []string{"Allow", "yes", "true", ""}[r.IntN(4)] // invalid values mean deny
+				}
+			}
+			initial["external-has-lua"] = "true"
+			refs := map[string][]string{
+				"secure-crt-secret":       {"b/tls1", "a/tls2", "tls2", "secret://b/tls1", "a/tls1", "b/missing"},
+				"secure-verify-ca-secret": {"b/ca", "a/ca", "ca", "secret://a/ca", "b/tls1"},
+				"auth-tls-secret":         {"b/ca", "a/ca", "ca", "secret://b/ca", "a/tls1"},
+				"auth-secret":             {"b/auth", "a/auth", "auth", "secret://a/auth"},
+				"auth-url":                {"svc://a/s2:80", "svc://b/s3:80", "svc://b/s1:80/check", "svc://s2:80", "http://10.9.9.9:8000/auth"},
+				"auth-tls-verify-client":  {"optional", "on"},
+				"secure-backends":         {"true"},
+			}
+			rc.World, rc.Ops = GenerateRun(seed, GenOptions{Sparse: r.IntN(2) == 0,
+				IngressKeys: []string{"secure-crt-secret", "secure-verify-ca-secret", "auth-tls-secret", "auth-secret", "auth-url", "auth-tls-verify-client", "secure-backends", "balance-algorithm"},
+				ServiceKeys: []string{"balance-algorithm", "timeout-server"}, ValueOverrides: refs, AnnChance: 2,
+				GlobalKeys:  []string{"cross-namespace-secrets-crt", "cross-namespace-secrets-ca", "cross-namespace-secrets-passwd", "cross-namespace-services", "timeout-client"},
+				InitialGlobal: initial, TLSSecrets: []string{"tls1", "b/tls1", "a/tls1", "a/tls2", "secret://b/tls1", "b/missing", ""},
+				Hosts: []string{"app.local", "api.local", "web.local", "h4.local"}, MinOps: mn, MaxOps: mx, QuiesceEvery: pickInt(r, 2, 4), KeysPerRun: 8, W: w, NoForeignClass: true})
+			return rc
+		}})
+
 	// ---------------- C07: every generated configuration is loadable
 	register(&Profile{Name: "stress", Prop: "C07",
 		Oracles: OracleSet{Property: "C07", Loadable: true},
